@@ -366,11 +366,48 @@ func (c *Ctx) ruleIterPackages() {
 				}
 			}
 		})
+		// the loop over the imports in a helper the iterator hands its yield function to
+		// (`yieldImportedAnnotations[T](pass, yield)`): its yield and its ImportPackageFact call, under the conditions of
+		// that call
+		var helperSite *ssa.Call
+		yield2, iter2 := ssa.Value(yield), iter
+		if len(yields) == 1 && importCall == nil {
+			allInstrs(iter, func(b *ssa.BasicBlock, ins ssa.Instruction) {
+				call, ok := ins.(*ssa.Call)
+				if !ok || helperSite != nil {
+					return
+				}
+				callee := call.Call.StaticCallee()
+				if callee == nil || !P.IsProductFunc(callee) || len(callee.Blocks) == 0 || callee.Pkg != fn.Pkg {
+					return
+				}
+				for ai, a := range call.Call.Args {
+					if a == ssa.Value(yield) && ai < len(callee.Params) {
+						helperSite = call
+						yield2, iter2 = callee.Params[ai], callee
+					}
+				}
+			})
+			if helperSite != nil {
+				allInstrs(iter2, func(b *ssa.BasicBlock, ins ssa.Instruction) {
+					if call, ok := ins.(*ssa.Call); ok {
+						if call.Call.Value == yield2 {
+							yields = append(yields, call)
+						}
+						if c.passFieldCall(call) == "ImportPackageFact" {
+							importCall = call
+						}
+					}
+				})
+			}
+		}
 		if len(yields) != 2 || importCall == nil {
 			c.fail("ITER-PACKAGES", name, P.Pos(iter.Pos()), fmt.Sprintf("expected one yield for the current package, one for imports and one ImportPackageFact call; found %d yields", len(yields)))
 			continue
 		}
-		sort.Slice(yields, func(i, j int) bool { return yields[i].Pos() < yields[j].Pos() })
+		if helperSite == nil {
+			sort.Slice(yields, func(i, j int) bool { return yields[i].Pos() < yields[j].Pos() })
+		}
 		// yield 1: (pass.Pkg, packageAnnotations parameter)
 		y1 := yields[0]
 		ok1 := c.P.isPassField(y1.Call.Args[0], "Pkg")
@@ -407,7 +444,11 @@ func (c *Ctx) ruleIterPackages() {
 		okAnn := strings.Contains(P.Desc(y2.Call.Args[1]), "GetAnnotations") && strings.Contains(P.Desc(y2.Call.Args[1]), factD)
 		guarded := false
 		var extra2 []string
-		for _, l := range P.BlockGuards(y2.Block()) {
+		g2 := P.BlockGuards(y2.Block())
+		if helperSite != nil {
+			g2 = append(append([]Lit{}, g2...), P.BlockGuards(helperSite.Block())...)
+		}
+		for _, l := range g2 {
 			if nilCheck(l) || l.Kind == "rangeloop" {
 				continue
 			}
@@ -415,7 +456,7 @@ func (c *Ctx) ruleIterPackages() {
 				guarded = true
 				continue
 			}
-			if call := litCall(l); call != nil && call.Call.Value == yield && l.Pos {
+			if call := litCall(l); call != nil && (call.Call.Value == ssa.Value(yield) || call.Call.Value == yield2) && l.Pos {
 				continue // first yield returned true
 			}
 			extra2 = append(extra2, short(l.String()))
@@ -430,7 +471,7 @@ func (c *Ctx) ruleIterPackages() {
 		} else {
 			okExit := true
 			why := ""
-			g := P.guardsOf(iter)
+			g := P.guardsOf(iter2)
 			for b := range loop {
 				for _, s := range b.Succs {
 					if loop[s] {
@@ -448,7 +489,7 @@ func (c *Ctx) ruleIterPackages() {
 					}
 					just := false
 					for _, l := range g.edgeLits[edge{b, s}] {
-						if call := litCall(l); call != nil && call.Call.Value == yield && !l.Pos {
+						if call := litCall(l); call != nil && call.Call.Value == yield2 && !l.Pos {
 							just = true
 						}
 					}
